@@ -111,6 +111,8 @@ impl Prop for C02P {
             v.push(format!("M {}x{}", c, r));
             v.push(format!("DV {}x{}", c, r));
             v.push(format!("DM {}x{}", c, r));
+            v.push(format!("DLV {}x{}", c, r));
+            v.push(format!("DLM {}x{}", c, r));
         }
         let nn = tier.pick(3, 4);
         for (c, r) in shapes(nn) {
@@ -131,7 +133,7 @@ impl Prop for C02P {
         };
         let kind = parts[0];
         match kind {
-            "O" | "DV" | "DM" => run_recv(kind, pc, pr, None, None, ctx),
+            "O" | "DV" | "DM" | "DLV" | "DLM" => run_recv(kind, pc, pr, None, None, ctx),
             "V" | "M" => {
                 for w in windows(pc, pr) {
                     run_recv(kind, pc, pr, Some(w), None, ctx);
@@ -147,7 +149,7 @@ impl Prop for C02P {
         }
     }
     fn rule(&self) -> String {
-        "for every receiver (owned arrays of every shape; TooDeeView and TooDeeViewMut over every window of every parent; views of views; views built directly over a slice) and every coordinate in (0..=dim+1)^2 plus huge values \
+        "for every receiver (owned arrays of every shape; TooDeeView and TooDeeViewMut over every window of every parent; views of views; views built directly over a slice, exact or with surplus cells) and every coordinate in (0..=dim+1)^2 plus huge values \
          (the fixed set 2^31, 2^32, 2^63, usize::MAX/2, MAX/2+1, MAX-1, MAX and every out-of-range index whose product with the receiver's stride wraps back into the column slice): \
          in range => x[(c,r)], x[r][c], col(c)[r], col(c).nth(r), rows().nth(r)[c], their mutable forms and the unchecked getters all yield the ADDRESS of the expected root cell; \
          out of range => every checked accessor panics (iterator nth may return None) and the root is unchanged. A case is (receiver, coordinate) with all accessors probed; non-trivial = in-range coordinate; distinct by (receiver, coordinate)."
@@ -173,7 +175,10 @@ fn run_recv(kind: &str, pc: usize, pr: usize, w1: Option<Win>, w2: Option<Win>, 
         ctx.case(
             || format!("{} {}x{} {:?} {:?} at ({},{})", kind, pc, pr, w1, w2, x, y),
             |cs| {
-                let mut rt: TooDee<u32> = TooDee::from_vec(pc, pr, (0..(pc * pr) as u32).collect());
+                // DLV / DLM: the view is built directly over a slice with surplus cells
+                let long = kind == "DLV" || kind == "DLM";
+                let (rc, rr) = if !long { (pc, pr) } else if pc == 0 { (1, 1) } else { (pc, pr + 1) };
+                let mut rt: TooDee<u32> = TooDee::from_vec(rc, rr, (0..(rc * rr) as u32).collect());
                 let base = rt.data().as_ptr() as usize;
                 let in_range = x < c && y < r;
                 let col_ok = x < c;
@@ -211,11 +216,11 @@ fn run_recv(kind: &str, pc: usize, pr: usize, w1: Option<Win>, w2: Option<Win>, 
                         probes.extend(probe_ro(&v, x, y, in_range));
                         probes.extend(probe_rw(&mut v, x, y, in_range));
                     }
-                    "DV" => {
+                    "DV" | "DLV" => {
                         let v = TooDeeView::new(pc, pr, rt.data());
                         probes.extend(probe_ro(&v, x, y, in_range));
                     }
-                    "DM" => {
+                    "DM" | "DLM" => {
                         let mut v = TooDeeViewMut::new(pc, pr, rt.data_mut());
                         probes.extend(probe_ro(&v, x, y, in_range));
                         probes.extend(probe_rw(&mut v, x, y, in_range));
@@ -223,7 +228,7 @@ fn run_recv(kind: &str, pc: usize, pr: usize, w1: Option<Win>, w2: Option<Win>, 
                     other => panic!("unknown receiver kind {}", other),
                 }
                 judge(cs, probes, in_range, col_ok, expect, (x, y));
-                if rt.data().iter().enumerate().any(|(i, v)| *v != i as u32) || rt.size() != (pc, pr) {
+                if rt.data().iter().enumerate().any(|(i, v)| *v != i as u32) || rt.size() != (rc, rr) {
                     cs.fail("access:modified", format!("array changed by pure accesses: {:?}", rt.data()));
                 }
             },
